@@ -29,7 +29,7 @@ import (
 const verifQ = NATIVEQ // native stand-in modulus
 const verifQBits = QBITSNATIVE
 const verifP = EMMOD // emulated modulus
-const verifT = 3     // bits per limb
+const verifT = EMLIMBBITS // bits per limb
 
 type verifEmParams struct{}
 
@@ -44,6 +44,7 @@ type verifEmEng struct {
 	frontend.API
 	comp        *verifEmCompiler
 	adversarial bool
+	exact       bool // integer arithmetic with explicit obligations "the native field is never exceeded / no subtraction underflows" instead of wrapping modulo q (for hint-free code)
 	nbHints     int
 }
 type verifEmCompiler struct {
@@ -90,7 +91,27 @@ func verifIsConst(x frontend.Variable, c int) bool {
 	}
 	return false
 }
+func (e *verifEmEng) add2(a, b uint32) uint32 {
+	if e.exact {
+		r := a + b
+		verifAssert(r < verifQ, "no native addition exceeds the native field")
+		return r
+	}
+	return verifNAdd(a, b)
+}
+func (e *verifEmEng) sub2(a, b uint32) uint32 {
+	if e.exact {
+		verifAssert(a >= b, "no native subtraction underflows")
+		return a - b
+	}
+	return verifNSub(a, b)
+}
 func (e *verifEmEng) mul2(i1, i2 frontend.Variable) uint32 {
+	if e.exact {
+		r := verifNU(i1) * verifNU(i2)
+		verifAssert(r < verifQ, "no native multiplication exceeds the native field")
+		return r
+	}
 	switch {
 	case verifIsConst(i1, 0), verifIsConst(i2, 0):
 		return 0
@@ -102,21 +123,21 @@ func (e *verifEmEng) mul2(i1, i2 frontend.Variable) uint32 {
 	return verifNMul(verifNU(i1), verifNU(i2))
 }
 func (e *verifEmEng) Add(i1, i2 frontend.Variable, in ...frontend.Variable) frontend.Variable {
-	r := verifNAdd(verifNU(i1), verifNU(i2))
+	r := e.add2(verifNU(i1), verifNU(i2))
 	for _, x := range in {
-		r = verifNAdd(r, verifNU(x))
+		r = e.add2(r, verifNU(x))
 	}
 	return verifN{r}
 }
 func (e *verifEmEng) Sub(i1, i2 frontend.Variable, in ...frontend.Variable) frontend.Variable {
-	r := verifNSub(verifNU(i1), verifNU(i2))
+	r := e.sub2(verifNU(i1), verifNU(i2))
 	for _, x := range in {
-		r = verifNSub(r, verifNU(x))
+		r = e.sub2(r, verifNU(x))
 	}
 	return verifN{r}
 }
 func (e *verifEmEng) Neg(i1 frontend.Variable) frontend.Variable {
-	return verifN{verifNSub(0, verifNU(i1))}
+	return verifN{e.sub2(0, verifNU(i1))}
 }
 func (e *verifEmEng) Mul(i1, i2 frontend.Variable, in ...frontend.Variable) frontend.Variable {
 	r := e.mul2(i1, i2)
@@ -126,7 +147,7 @@ func (e *verifEmEng) Mul(i1, i2 frontend.Variable, in ...frontend.Variable) fron
 	return verifN{r}
 }
 func (e *verifEmEng) MulAcc(a, b, c frontend.Variable) frontend.Variable {
-	return verifN{verifNAdd(verifNU(a), e.mul2(b, c))}
+	return verifN{e.add2(verifNU(a), e.mul2(b, c))}
 }
 func (e *verifEmEng) Select(b, i1, i2 frontend.Variable) frontend.Variable {
 	// the selector is a boolean (constrained by its producer / by the builder's Select)
@@ -265,17 +286,9 @@ func verifEmElement(f *Field[verifEmParams], n int, of uint) *Element[verifEmPar
 	return f.newInternalElement(limbs, of)
 }
 
-// a = b modulo the emulated modulus p, for integers below 2^25, WITHOUT a division: d = a + 2^20 p - b is divisible by the
-// odd constant p iff d * p^-1 (mod 2^32) <= (2^32-1)/p  (multiplication by a constant and a comparison: the solver
-// normalises k*p*p^-1 to k, where a remainder would have to be bit-blasted as a divider)
-func verifEmCong(a, b uint32) bool {
-	inv := uint32(verifP) // Newton iteration for p^-1 modulo 2^32 (p odd): concrete, folded by the executor
-	for i := 0; i < 5; i++ {
-		inv *= 2 - uint32(verifP)*inv
-	}
-	d := a + uint32(verifP)<<20 - b
-	return d*inv <= ^uint32(0)/uint32(verifP)
-}
+// a = b modulo the emulated modulus p (the multiplicative divisibility test d*p^-1 mod 2^32 <= (2^32-1)/p was tried in
+// place of the two remainders and made the solver slower on these queries: kept as remainders, sizes kept small)
+func verifEmCong(a, b uint32) bool { return a%verifP == b%verifP }
 
 // the integer an element stands for
 func verifEmVal(e *Element[verifEmParams]) uint32 {
